@@ -97,11 +97,13 @@ def main():
             shutil.copy(os.path.join(seed, "patch.diff"), dst)
             for d in demos.split(","):
                 shutil.copy(os.path.join(seed, d.split("=")[0]), dst)
-            for extra in ("NOTES.md", "DEMO_PATH.txt"):
+            open(os.path.join(dst, "RUN.txt"), "w").write("%s %s\n" % (pkg, rx))
+            for extra in ("NOTES.md", "DEMO_PATH.txt", "README.md"):
                 if os.path.exists(os.path.join(seed, extra)): shutil.copy(os.path.join(seed, extra), dst)
             meta_path = os.path.join(dst, "meta.json")
             meta = json.load(open(meta_path)) if os.path.exists(meta_path) else {}
             meta.update({"demo": demos, "demo_cmd": demo_cmd, "confirmed": ok, "ran": result["ran"]})
+            meta.setdefault("property", keep[:3])
             meta.setdefault("detected_by", {}).update({"%s/%s" % (p, tier): s for p, s in det.items()})
             json.dump(meta, open(meta_path, "w"), indent=1)
     finally:
